@@ -224,6 +224,7 @@ main(int argc, char *argv[])
 	int strategy = SIM_STRAT_RANDOM, pct = 2;
 	char *explicit_list = NULL;
 	long nofile = 0;
+	int close_stdin = 0;
 	char *line = NULL;
 	size_t cap = 0;
 	sim_seams_init(argv[3]);
@@ -257,6 +258,7 @@ main(int argc, char *argv[])
 			else if (!strcmp(k, "pct_depth")) pct = atoi(v);
 			else if (!strcmp(k, "sched")) explicit_list = strdup(v);
 			else if (!strcmp(k, "nofile")) nofile = atol(v);
+			else if (!strcmp(k, "close_stdin")) close_stdin = atoi(v);
 			else { fprintf(stderr, "rtsim: unknown knob %s\n", k); return 2; }
 		} else if (strcmp(tok[0], "thread") == 0) {
 			int i = atoi(tok[1]);
@@ -287,6 +289,10 @@ main(int argc, char *argv[])
 	if (chdir(root) != 0) {
 		perror("chdir root");
 		return 2;
+	}
+	if (close_stdin) {
+		/* a daemon's environment: descriptor 0 is free, so the first file the library opens gets it */
+		close(0);
 	}
 	if (nofile > 0) {
 		/* a small descriptor table stands in for a long process life: whatever the library
